@@ -31,6 +31,8 @@ fn gen_train_feature(rng: &mut Rng) -> String {
         1 => "\"s,q\"".to_string(),
         // a value that starts with a double quote and has no comma (needs CSV quoting all the same)
         2 => "\"\"\"in\"".to_string(),
+        // a column that is present but empty
+        3 if rng.chance(1, 2) => String::new(),
         _ => format!("S{}", rng.below(3)),
     };
     match rng.below(6) {
@@ -112,6 +114,10 @@ pub fn gen_train_world(rng: &mut Rng, plan: &mut Plan) {
         "T:%t",
         "UT:%F[0]-%t",
         "U4:%F[0],%F[1],%F[2]",
+        // a placeholder of another kind is literal text in a unigram template
+        "U5:%F[0],%L[0]",
+        // no literal text at all: the feature string is the bare column value (possibly empty)
+        "%F[1]",
     ];
     let n_uni = 1 + rng.usize(5);
     let mut idx: Vec<usize> = (0..uni.len()).collect();
@@ -133,6 +139,8 @@ pub fn gen_train_world(rng: &mut Rng, plan: &mut Plan) {
         "B7:lit/%R[0]",
         // spaces around the slash: the left features end and the right features start with a blank
         "B8:%L[0] / B8:%R[0]",
+        // placeholders of another kind are literal text in a bigram template
+        "B9:%L[0],%t/B9:%R[0],%F[0]",
     ];
     let n_bi = 1 + rng.usize(6);
     let mut idx: Vec<usize> = (0..bi.len()).collect();
@@ -140,6 +148,11 @@ pub fn gen_train_world(rng: &mut Rng, plan: &mut Plan) {
     // B6's right side is a bare %R[1], which expands to a literal "*" for features like "P1,*"
     // (the shape of known finding KF-C16-1): kept, but only in about one world in ten
     if !rng.chance(1, 5) {
+        idx.retain(|&i| i != 6);
+    }
+    // ... and never together with an empty column 1: the bare "%R[1]" would expand to the empty
+    // string, which the bigram files reserve for BOS/EOS (the same family as KF-C16-1)
+    if seeds.iter().any(|(_, f)| crate::scen_bigram::csv_fields(f).get(1).is_some_and(|c| c.is_empty())) {
         idx.retain(|&i| i != 6);
     }
     for &i in idx.iter().take(n_bi) {
@@ -230,10 +243,12 @@ pub fn gen_train_world(rng: &mut Rng, plan: &mut Plan) {
             }
             _ => format!("PU{},S{},newclass{}", rng.below(2), rng.below(2), rng.below(3)),
         };
-        let params = if rng.chance(1, 2) {
-            "0,0,0".to_string()
-        } else {
-            format!("{},{},{}", rng.below(2), 1, rng.range(-500, 500))
+        let params = match rng.below(8) {
+            0..=3 => "0,0,0".to_string(),
+            // both ids 0 but a cost: explicit parameters all the same
+            4 => format!("0,0,{}", *rng.pick(&[-1500i64, -1, 1, 7, 32767])),
+            5 => format!("{},0,0", 1 + rng.below(2)),
+            _ => format!("{},{},{}", rng.below(2), 1, rng.range(-500, 500)),
         };
         user.push(format!("{},{},{}", csv_quote(&s), params, f));
     }
@@ -626,6 +641,7 @@ fn check_dictionary_image(plan: &Plan, model: &Model, files: &DictFiles, ctx: &m
     }
     let mut seen = 0;
     let mut prev: Option<(usize, u32)> = None;
+    let mut emitted_matrix: BTreeMap<(usize, u32), String> = BTreeMap::new();
     for line in lines {
         let cols: Vec<&str> = line.split(' ').collect();
         let parsed = (cols.len() == 3)
@@ -650,6 +666,7 @@ fn check_dictionary_image(plan: &Plan, model: &Model, files: &DictFiles, ctx: &m
             return Err(Violation::new("C14.matrix.order", format!("line {line:?} out of order or duplicated")));
         }
         prev = Some((r, l));
+        emitted_matrix.insert((r, l), cols[2].to_string());
         seen += 1;
         if w.abs() == max && max > 0.0 {
             ctx.count("probe.max_weight_is_matrix_entry");
@@ -680,6 +697,28 @@ fn check_dictionary_image(plan: &Plan, model: &Model, files: &DictFiles, ctx: &m
                         "C14.user.twin",
                         format!("user row {k} {line:?} (given as 0,0,0) is the same word as the seed row with cost {}, but got cost {c}", twin.1[2]),
                     ));
+                }
+                // ... and it must connect like that word: its classes may be numbered differently,
+                // but their matrix row and column must hold the same costs
+                let id = |t: &str| t.parse::<usize>().ok();
+                if let (Some(ul), Some(ur), Some(sl), Some(sr)) = (id(&l), id(&r), id(&twin.1[0]), id(&twin.1[1])) {
+                    let cell = |r: usize, l: usize| emitted_matrix.get(&(r, l as u32)).map(|s| s.as_str()).unwrap_or("0");
+                    for x in 0..num_left {
+                        if cell(ur, x) != cell(sr, x) {
+                            return Err(Violation::new(
+                                "C14.user.twin_connection",
+                                format!("user row {k} {line:?} is the same word as a seed row with right id {sr}, but matrix.def has ({ur},{x}) = {} and ({sr},{x}) = {}", cell(ur, x), cell(sr, x)),
+                            ));
+                        }
+                    }
+                    for x in 0..num_right {
+                        if cell(x, ul) != cell(x, sl) {
+                            return Err(Violation::new(
+                                "C14.user.twin_connection",
+                                format!("user row {k} {line:?} is the same word as a seed row with left id {sl}, but matrix.def has ({x},{ul}) = {} and ({x},{sl}) = {}", cell(x, ul), cell(x, sl)),
+                            ));
+                        }
+                    }
                 }
             }
         }
@@ -953,7 +992,7 @@ impl Scenario for ExportScenario {
     fn describe(&self) -> ScenarioInfo {
         ScenarioInfo {
             level: "exploration",
-            rule: "one seeded run = a seeded trainer world (seed lexicon 4-12 rows with homographs and quoted features, unk.def 1-2 rows per category in shuffled file order, 1-5 unigram and 1-6 bigram templates with optional references, seeded rewrite rules, corpus of 1-6 sentences with known, unknown-compatible and virtual-edge words, max_iter 5-30, one thread) trained with the real trainer; optional read_user_lexicon (rows given as 0,0,0 and rows with explicit parameters); write_dictionary fault-free (compared field by field with the reference image recomputed from RawModel::merge(): row order, surfaces, verbatim features, merged class ids, header dimensions, every cost == trunc(-w*32767/max|w|), matrix entry set and order, user rows), through short-write/EINTR sinks (identical bytes), and with a hard fault at a seeded offset of one of the four sinks (must return Err, never Ok with a short file); the emitted files are read back through benign-faulty readers and must compile, the emitted user file must load. distinct_nontrivial = distinct plan hashes of runs whose training succeeded and that made >= 1 comparison",
+            rule: "one seeded run = a seeded trainer world (seed lexicon 4-12 rows with homographs and quoted features, unk.def 1-2 rows per category in shuffled file order, 1-5 unigram and 1-6 bigram templates with optional references, seeded rewrite rules, corpus of 1-6 sentences with known, unknown-compatible and virtual-edge words, max_iter 5-30, one thread) trained with the real trainer; optional read_user_lexicon (rows given as 0,0,0 and rows with explicit parameters); write_dictionary fault-free (compared field by field with the reference image recomputed from RawModel::merge(): row order, surfaces, verbatim features, merged class ids, header dimensions, every cost == trunc(-w*32767/max|w|), matrix entry set and order, user rows), through short-write/EINTR sinks (identical bytes), and with a hard fault at a seeded offset of one of the four sinks (must return Err, never Ok with a short file); the emitted files are read back through benign-faulty readers and must compile, the emitted user file must load. Added later: user rows that duplicate a seed word (1 world in 3; such a row given as 0,0,0 must get the seed word's cost and a matrix row/column with the same costs), user rows with ids 0,0 and a non-zero cost (kept), a CR inside a surface (1 in 40), empty feature columns, unigram/bigram templates without literal text or with placeholders of another kind, 1 world in 10 with 10-15 bigram templates; sinks by &mut or owned BufWriter/LineWriter. distinct_nontrivial = distinct plan hashes of runs whose training succeeded and that made >= 1 comparison",
             assumptions: vec![
                 "rucrf's RawModel::merge() is the trusted definition of the merged classes and weights",
                 "costs are accepted under either floating evaluation order of -w*32767/max|w|",
@@ -1382,6 +1421,11 @@ impl Scenario for SmallDicScenario {
         } else {
             gen_train_world(rng, &mut plan);
         }
+        // a user lexicon before generating: its words (also words with features never seen in
+        // training) get classes of their own in matrix.def and in the bigram files
+        if rng.chance(1, 3) {
+            plan.ops.push(Op::new("AddUser"));
+        }
         plan.ops.push(Op::new("Gen"));
         plan.ops.push(
             Op::new("GenBenign")
@@ -1420,6 +1464,22 @@ impl Scenario for SmallDicScenario {
         let mut generated: Option<(DictFiles, BigramFiles)> = None;
         for op in &plan.ops {
             match op.kind.as_str() {
+                "AddUser" => {
+                    // (a model without any bigram weight cannot merge a user lexicon: KF-RUCRF-1,
+                    // recorded under C14/C15; not this property's subject)
+                    if model.verif_raw_model().bigram_weight_indices().is_empty() {
+                        ctx.count("adduser.skipped_no_bigram_weight");
+                        continue;
+                    }
+                    match catch(|| model.read_user_lexicon(plan.file("user.csv")).map_err(|e| e.to_string())) {
+                        Ok(Ok(())) => {
+                            ctx.count("probe.user_lexicon_before_generation");
+                            ctx.event("add user", "ok");
+                        }
+                        Ok(Err(e)) => return Err(Violation::new("C16.user.rejected", format!("valid user lexicon rejected: {e}"))),
+                        Err(p) => return Err(panic_violation("C16.user", "read_user_lexicon", &p)),
+                    }
+                }
                 "Gen" => {
                     generated = Some(gen_all(&mut model, ctx, "C16.gen")?);
                     if generated.as_ref().is_some_and(|g| g.1.cost.len() > 8192) {
@@ -1503,6 +1563,7 @@ impl Scenario for SmallDicScenario {
                         &String::from_utf8_lossy(&b.cost),
                     )
                     .filter(|m| m.num_right() == nr && m.num_left() == nl);
+
                     let mut presum_may_overflow = 0u64;
                     let r = catch(|| {
                         let mut worst = (0i64, 0usize, 0usize);
@@ -1592,7 +1653,7 @@ impl Scenario for SmallDicScenario {
     fn describe(&self) -> ScenarioInfo {
         ScenarioInfo {
             level: "exploration",
-            rule: "one seeded run = a seeded trainer world trained with the real trainer; write_dictionary + write_bigram_details onto the simulated disk (fault-free; through short-write/EINTR sinks: identical; with a hard fault at a seeded offset of one of the three bigram sinks: must return Err); the emitted files are read back through benign-faulty readers and compiled three ways - matrix.def, raw connector, dual connector under two seeded template splits (hook H5). For every id pair incl. id 0: dual == raw, |raw - matrix| <= K+1 (K = number of bigram templates), and all dictionaries have the same numbers of left and right ids. distinct_nontrivial = distinct plan hashes of runs whose training succeeded with >= 1 comparison",
+            rule: "one seeded run = a seeded trainer world trained with the real trainer; write_dictionary + write_bigram_details onto the simulated disk (fault-free; through short-write/EINTR sinks: identical; with a hard fault at a seeded offset of one of the three bigram sinks: must return Err); the emitted files are read back through benign-faulty readers and compiled three ways - matrix.def, raw connector, dual connector under two seeded template splits (hook H5). For every id pair incl. id 0: dual == raw, |raw - matrix| <= K+1 (K = number of bigram templates), and all dictionaries have the same numbers of left and right ids. Added later: 1 run in 3 reads the user lexicon before generating (classes of user words, also of words with features never seen in training, are compared like all others); dual == raw is required where the negative and positive per-template costs of the pair each fit 16 bits; 1 world in 10 has 10-15 templates. distinct_nontrivial = distinct plan hashes of runs whose training succeeded with >= 1 comparison",
             assumptions: vec![
                 "feature values contain no '/' or tab (they would not survive the bigram.cost line format)",
                 "worlds whose training fails or panics inside rucrf/argmin are skipped (counted)",
@@ -1601,6 +1662,7 @@ impl Scenario for SmallDicScenario {
             stub: vec!["all files (FaultySink/FaultyReader over memory)", "hash order of the dual-connector split (hook H5)"],
             probes: vec![
                 "probe.nonzero_rounding_difference",
+                "probe.user_lexicon_before_generation",
                 "probe.at_least_2_classes_per_side",
                 "probe.bigram_cost_over_8k",
                 "fault.short_transfer",
